@@ -142,7 +142,14 @@ def check_case(case: dict) -> Outcome:
 
     def sig(base: str) -> str:
         # one signature for the plain-form root cause recorded under C05 (whatever path shows it)
-        return "C06:plain-backslash" if defect else base
+        if defect:
+            return "C06:plain-backslash"
+        # one signature per recorded serialisation root cause, whether the reloaded rule converts
+        # differently or does not load at all
+        for cls in ("value-transformation", "field_name_mapping-one-to-many"):
+            if base.startswith("C06:transformed:") and base.endswith(":" + cls):
+                return "C06:transformed:queries-changed:" + cls
+        return base
     out.nontrivial = kind != "rule" or any("\\" in s for s in _strings(doc.get("detection", {}))) or any(
         "|" in k for d in doc.get("detection", {}).values() if isinstance(d, dict) for k in d)
 
